@@ -26,7 +26,8 @@ Inductive mutation : Type :=
 | MVersion (v : N)
 | MAkeDamage (field : N)   (* AKE message: field-th component damaged *)
 | MAkeGroup (v : N)        (* DH-Key: g^y replaced by the out-of-range value number v (0, 1, p-1, p, p+1) *)
-| MImpersonate (victim : N). (* Reveal-Signature: public key inside X_B replaced by the victim's, MAC recomputed with m2 *)
+| MImpersonate (victim : N)  (* Reveal-Signature / Signature: public key inside X replaced by the victim's, MAC recomputed with m2 *)
+| MBadX (kind : N).          (* X replaced by something that does not parse as key + key id + signature, encrypted and MACed correctly *)
 
 Record sys := {
   s_convs : list conv;                (* index = party number - 1 *)
@@ -87,6 +88,18 @@ Definition mut_ake (m : mutation) (b : akebody) : akebody :=
       let es' := {| es_ckey := es_ckey es; es_pub := v; es_keyid := es_keyid es; es_signer := es_signer es;
                     es_over := es_over es; es_parses := true |} in
       BReveal r es' {| em_key := em_key mac; em_over := es'; em_intact := true |}
+  | MImpersonate v, BSig es mac =>
+      let es' := {| es_ckey := es_ckey es; es_pub := v; es_keyid := es_keyid es; es_signer := es_signer es;
+                    es_over := es_over es; es_parses := true |} in
+      BSig es' {| em_key := em_key mac; em_over := es'; em_intact := true |}
+  | MBadX _, BReveal r es mac =>
+      let es' := {| es_ckey := es_ckey es; es_pub := es_pub es; es_keyid := es_keyid es; es_signer := es_signer es;
+                    es_over := es_over es; es_parses := false |} in
+      BReveal r es' {| em_key := em_key mac; em_over := es'; em_intact := true |}
+  | MBadX _, BSig es mac =>
+      let es' := {| es_ckey := es_ckey es; es_pub := es_pub es; es_keyid := es_keyid es; es_signer := es_signer es;
+                    es_over := es_over es; es_parses := false |} in
+      BSig es' {| em_key := em_key mac; em_over := es'; em_intact := true |}
   | MAkeDamage 0, BReveal r es mac => BReveal (r + 7777) es mac             (* revealed key damaged *)
   | MAkeDamage 1, BReveal r es mac => BReveal r {| es_ckey := es_ckey es; es_pub := es_pub es; es_keyid := es_keyid es;
                                                     es_signer := es_signer es; es_over := es_over es; es_parses := false |} mac
